@@ -571,5 +571,41 @@ func (x *Exec) invoke(st *State, i *ssa.Call, args []Value, k func(*State)) {
 
 // specialCall handles externals whose semantics are built in. Returns true if handled.
 func (x *Exec) specialCall(st *State, i *ssa.Call, callee *ssa.Function, args []Value, setResult func(*State, []Value), k func(*State), fr *frame) bool {
+	// a function whose real body does nothing (e.g. the release-build stubs of openacid/must)
+	if callee.Signature.Results().Len() == 0 && isTrivialNoop(callee) {
+		k(st)
+		return true
+	}
 	return false
+}
+
+// isTrivialNoop reads the callee's SSA: only parameter spills, defer bookkeeping and a bare return.
+func isTrivialNoop(fn *ssa.Function) bool {
+	if len(fn.Blocks) != 1 {
+		return false
+	}
+	for _, in := range fn.Blocks[0].Instrs {
+		switch i := in.(type) {
+		case *ssa.Alloc:
+			if i.Heap {
+				return false
+			}
+		case *ssa.Store:
+			if _, ok := i.Addr.(*ssa.Alloc); !ok {
+				return false
+			}
+		case *ssa.Call:
+			if b, ok := i.Call.Value.(*ssa.Builtin); !ok || !strings.HasPrefix(b.Name(), "ssa:") {
+				return false
+			}
+		case *ssa.RunDefers, *ssa.DebugRef:
+		case *ssa.Return:
+			if len(i.Results) != 0 {
+				return false
+			}
+		default:
+			return false
+		}
+	}
+	return true
 }
